@@ -669,10 +669,23 @@ fn do_op(sys: &mut Sys, rng: &mut Rng, extremes: bool, script: Option<(u64, u64)
         47..=49 => {
             let n = near(rng, next.saturating_sub(1));
             let cur = est.as_ref().and_then(|e| e.current_holder_commit_info.as_ref()).map(|i| content_id_of(i, true));
-            let r = guarded(|| match node.with_channel(&cid, |c| c.sign_holder_commitment_tx_phase2(n)) {
-                Ok(_) => Obs { hsig: Some((n, cur.unwrap_or(999))), ..Obs::ok() },
-                Err(_) => Obs::refused(),
-            });
+            let sysr: &Sys = sys;
+            let r = if rng.chance(1, 2) {
+                let m = msgs::SignLocalCommitmentTx2 { commitment_number: n };
+                let msg = msgs::from_vec(m.as_vec()).expect("request survives the wire");
+                guarded(|| match sysr.handler.handle(msg) {
+                    Ok(reply) => match msgs::from_vec(reply.as_vec()) {
+                        Ok(Message::SignCommitmentTxReply(_)) => Obs { hsig: Some((n, cur.unwrap_or(999))), ..Obs::ok() },
+                        _ => Obs::abort(),
+                    },
+                    Err(_) => Obs::refused(),
+                })
+            } else {
+                guarded(|| match node.with_channel(&cid, |c| c.sign_holder_commitment_tx_phase2(n)) {
+                    Ok(_) => Obs { hsig: Some((n, cur.unwrap_or(999))), ..Obs::ok() },
+                    Err(_) => Obs::refused(),
+                })
+            };
             (format!("SignHolder {}", n), json!(["sign_holder", n]), r)
         }
         50 => {
@@ -724,14 +737,49 @@ fn do_op(sys: &mut Sys, rng: &mut Rng, extremes: bool, script: Option<(u64, u64)
             };
             let pol_ok = content_ok(id, n);
             let (to_h, to_c) = cp_content(id);
-            let p1 = if rng.chance(1, 3) { sys.cp_phase1_args(&pt, n, id) } else { None };
-            let r = guarded(|| match node.with_channel(&cid, |c| match &p1 {
-                Some((tx, ws)) => c.sign_counterparty_commitment_tx(tx, ws, &pt, n, 1100, incoming_htlcs(id), vec![]).map(|_| ()),
-                None => c.sign_counterparty_commitment_tx_phase2(&pt, n, 1100, to_h, to_c, incoming_htlcs(id), vec![]).map(|_| ()),
-            }) {
-                Ok(_) => Obs { cpsig: Some((n, pt_id, id)), ..Obs::ok() },
-                Err(_) => Obs::refused(),
-            });
+            // three routes to the same request: the phase-1 entry point, the protocol message
+            // SignRemoteCommitmentTx2 through the channel handler, the phase-2 entry point
+            let route = rng.below(3);
+            let p1 = if route == 0 { sys.cp_phase1_args(&pt, n, id) } else { None };
+            let sysr: &Sys = sys;
+            let r = if route == 1 {
+                let m = msgs::SignRemoteCommitmentTx2 {
+                    remote_per_commitment_point: PubKey(pt.serialize()),
+                    commitment_number: n,
+                    feerate: 1100,
+                    to_local_value_sat: to_h,
+                    to_remote_value_sat: to_c,
+                    htlcs: Array(
+                        incoming_htlcs(id)
+                            .iter()
+                            .map(|h| model::Htlc {
+                                side: model::Htlc::REMOTE,
+                                amount: h.value_sat * 1000,
+                                payment_hash: model::Sha256(h.payment_hash.0),
+                                ctlv_expiry: h.cltv_expiry,
+                            })
+                            .collect(),
+                    ),
+                };
+                let msg = msgs::from_vec(m.as_vec()).expect("request survives the wire");
+                guarded(|| match sysr.handler.handle(msg) {
+                    Ok(reply) => match msgs::from_vec(reply.as_vec()) {
+                        Ok(Message::SignCommitmentTxWithHtlcsReply(rep)) if rep.htlc_signatures.len() == incoming_htlcs(id).len() => {
+                            Obs { cpsig: Some((n, pt_id, id)), ..Obs::ok() }
+                        }
+                        _ => Obs::abort(),
+                    },
+                    Err(_) => Obs::refused(),
+                })
+            } else {
+                guarded(|| match node.with_channel(&cid, |c| match &p1 {
+                    Some((tx, ws)) => c.sign_counterparty_commitment_tx(tx, ws, &pt, n, 1100, incoming_htlcs(id), vec![]).map(|_| ()),
+                    None => c.sign_counterparty_commitment_tx_phase2(&pt, n, 1100, to_h, to_c, incoming_htlcs(id), vec![]).map(|_| ()),
+                }) {
+                    Ok(_) => Obs { cpsig: Some((n, pt_id, id)), ..Obs::ok() },
+                    Err(_) => Obs::refused(),
+                })
+            };
             (
                 format!("SignCp {} {} {} {}", n, pt_id, id, coq_bool(pol_ok)),
                 json!(["sign_cp", n, pt_id, id, pol_ok]),
@@ -769,10 +817,24 @@ fn do_op(sys: &mut Sys, rng: &mut Rng, extremes: bool, script: Option<(u64, u64)
                 .and_then(|e| e.counterparty_secrets.clone())
                 .map(|mut s| rn <= INITIAL && s.provide_secret(INITIAL - rn, secret).is_ok())
                 .unwrap_or(true);
-            let r = guarded(|| match node.with_channel(&cid, |c| c.validate_counterparty_revocation(rn, &sk)) {
-                Ok(()) => Obs::ok(),
-                Err(_) => Obs::refused(),
-            });
+            let sysr: &Sys = sys;
+            let r = if rng.chance(1, 3) {
+                // as the protocol message
+                let m = msgs::ValidateRevocation { commitment_number: rn, commitment_secret: model::DisclosedSecret(secret) };
+                let msg = msgs::from_vec(m.as_vec()).expect("request survives the wire");
+                guarded(|| match sysr.handler.handle(msg) {
+                    Ok(reply) => match msgs::from_vec(reply.as_vec()) {
+                        Ok(Message::ValidateRevocationReply(_)) => Obs::ok(),
+                        _ => Obs::abort(),
+                    },
+                    Err(_) => Obs::refused(),
+                })
+            } else {
+                guarded(|| match node.with_channel(&cid, |c| c.validate_counterparty_revocation(rn, &sk)) {
+                    Ok(()) => Obs::ok(),
+                    Err(_) => Obs::refused(),
+                })
+            };
             (
                 format!("ValidateRevocation {} {} {} {}", rn, 1000 + sec_num, sec_num, coq_bool(chains)),
                 json!(["validate_revocation", rn, sec_num, chains]),
